@@ -68,12 +68,19 @@ WITNESSES.append(  # finding D25: (a + f† N_f) + form; the vanishing term f†
          mixed=dict(x=["mul", ["num", 0], ["op", 1, 0]], e=["add", ["op", 0, 0], ["mul", ["op", 1, 1], ["num", 1]]], op="radd")))
 
 
+for _m, _l, _r in nc.LADDER_WITNESSES:  # ladder modes: creation/annihilation powers around a function of N_m
+    WITNESSES.append(dict(modes=_m, tree=["mul", _l, _r], grid=[[v] * len(_m) for v in (-2, 0, 1, 3)], kind="witness"))
+
+
 def gen_case(rng, kind=None):
     modes = nc.rand_modes(rng)
     kind = kind or rng.choice(
         ["mul", "mul", "fermi", "fermi", "assocL", "assocR", "sum", "adj", "pow", "powterm", "powterm", "mulsum", "whole", "whole", "roundtrip",
-         "negpow", "mixed"]
+         "negpow", "mixed", "ladder", "ladder"]
     )
+    if kind == "ladder":
+        modes, l, r = nc.rand_ladder_pair(rng)
+        return dict(modes=modes, tree=["mul", l, r], grid=nc.rand_grid(rng, modes, 5), kind="ladder" if rng.random() < 0.7 else "whole")
     if kind == "negpow":
         # negative integer powers of particle-conserving forms and __truediv__ by them (l. 1556-1575)
         f = nc.rand_numfun(rng, modes, 1)
